@@ -58,6 +58,26 @@ pub const LAYOUTS: &[&str] = &[
     "local function lf()\n  return @L@\nend\nfunction gf()\n  return @L@\nend\nE1(lf(), gf(), @L@)\n",
     "E1(math.sqrt(4), @L@)\nlocal q = math.sqrt(\n  E1(@L@))\nE1(q, @L@)\n",
     "@native\nlocal function nf()\n  return @L@\nend\nE1(nf(), @L@)\n",
+    // values computed by a rule have no token: a folded string with line feeds must not add lines
+    "local s = 'a\\nb\\nc\\nd\\ne\\nf\\ng\\nhhhhhhhhhhhh' .. 'x' E1(s, @L@)\nE1(@L@)\n",
+    "E1('1\\n2\\n3\\n4\\n5\\n6\\n7' .. '', @L@)\nE1('a long line of text that is longer than sixty characters in total\\n' .. 'x', @L@)\nE1(@L@)\n",
+    // a branch that is always taken replaces the else branch
+    "if E1(@L@) then\n  E1(@L@)\nelseif true then\n  E1(@L@)\nelse\n  E1(@L@)\nend\nE1(@L@)\n",
+    "if E1(@L@) then\n  E1(@L@)\nelseif E1(@L@) then\n  E1(@L@)\nelseif 1 then\n\n  E1(@L@)\nelseif E1(@L@) then\n  E1(@L@)\nelse\n\n\n  E1(@L@)\nend\nE1(@L@)\n",
+    "local v = if E1(@L@) then\n  @L@\nelseif true then\n  E1(@L@)\nelse\n  E1(@L@)\nE1(v, @L@)\n",
+    // nil declarations are reordered
+    "local a --[[ multi\nline\ncomment ]], b = nil, E1(@L@)\nE1(a, b, @L@)\n",
+    "local a,\n  b,\n  c = nil,\n  E1(@L@),\n  nil\nE1(a, b, c, @L@)\n",
+    "local a, -- one\n  b, -- two\n  c = E1(@L@), -- three\n  nil, nil\nE1(a, b, c, @L@)\n",
+    // a removed statement between a multi-line comment and its own trailing comment
+    "--[[ header\n  spanning\n  lines ]]\nwhile false do end -- trailing\nE1(@L@)\nE1(@L@)\n",
+    "E1(@L@) --[[ a\nb\nc ]] local unused = 1 -- trailing\n--[[ d\ne ]] do end --[[ f\n]] E1(@L@)\nE1(@L@)\n",
+    // string keys that become field names
+    "local t = {}\nE1(t\n[\n@I@], @L@)\nt[@I@] = t\nt\n  [@I@]\n  [@I@] = @L@\nE1(t[@I@][\n  @I@\n], @L@)\n",
+    "local t = {\n  [@I@] = @L@,\n  [\n    @I@\n  ] = @L@,\n  [@I@] = {\n    [@I@] = @L@ },\n}\nE1(t, @L@)\n",
+    "local t = {}\nt[@I@](@L@)\nt\n[@I@]\n(@L@)\nt[@I@]:m(\n  @L@)\nE1(@L@)\n",
+    // string keys of table types
+    "local x: { [@L@]: number } = E1(@L@)\nE1(@L@)\ntype T = {\n  [@L@]: { [@L@]: string },\n}\nE1(x, @L@)\n",
 ];
 
 pub fn instantiate(layout: &str) -> String {
@@ -66,7 +86,7 @@ pub fn instantiate(layout: &str) -> String {
         if i > 0 {
             out.push('\n');
         }
-        out.push_str(&line.replace("@L@", &format!("\"@{}@\"", i + 1)));
+        out.push_str(&line.replace("@L@", &format!("\"@{}@\"", i + 1)).replace("@I@", &format!("\"L{}_\"", i + 1)));
     }
     out
 }
@@ -79,6 +99,19 @@ fn markers(text: &str) -> Result<Vec<(u32, u32)>, String> {
         if let Tok::Str(s) = &t.tok {
             if s.len() >= 3 && s[0] == b'@' && s[s.len() - 1] == b'@' {
                 if let Ok(n) = std::str::from_utf8(&s[1..s.len() - 1]).unwrap_or("").parse::<u32>() {
+                    out.push((n, t.line));
+                }
+            }
+        }
+        // markers that can become field names: the string "L<n>_" or the name L<n>_
+        let word: Option<&[u8]> = match &t.tok {
+            Tok::Str(s) => Some(s.as_slice()),
+            Tok::Name(n) => Some(n.as_bytes()),
+            _ => None,
+        };
+        if let Some(w) = word {
+            if w.len() >= 3 && w[0] == b'L' && w[w.len() - 1] == b'_' {
+                if let Ok(n) = std::str::from_utf8(&w[1..w.len() - 1]).unwrap_or("").parse::<u32>() {
                     out.push((n, t.line));
                 }
             }
@@ -389,6 +422,95 @@ fn bundle_ending_cases() -> (u64, Vec<Violation>) {
     (n, out)
 }
 
+/// module bodies whose statements are hoisted, rewritten or generated by the bundler; `@M@` is the marker of the line
+const MODULE_BODIES: &[(&str, &str)] = &[
+    ("m1.luau", "E1(@M@)\n-- documentation of the type\n-- on several lines\n\ntype A = number\nE1(@M@)\nreturn nil"),
+    ("m1.luau", "E1(@M@)\n--[[ documentation\nof the type ]]\nexport type A = number\n\n\ntype B = {\n  x: A,\n}\nE1(@M@)\nreturn { @M@ }\n"),
+    ("m1.luau", "type A = number type B = A\nE1(@M@) type C = {\n  B }\nE1(@M@)\nreturn nil\n"),
+    ("m1.luau", "local x: { [@M@]: number } = E1(@M@)\nE1(@M@)\nE1(@M@)\nreturn x\n"),
+    ("m1.luau", "local x: { [@M@]: {\n  [@M@]: number } } = E1(@M@)\ntype T = { [\"key\"]: T }\nE1(@M@)\nreturn x\n"),
+    ("m1.txt", "line one of the text\nline two of the text\nline three of the text file\n"),
+    ("m1.txt", "1\n2\n3\n4\n5\n6\n7\n8"),
+    ("m1.json", "{\n  \"text\": \"a\\nb\\nc\\nd\\ne\\nf\\ng\\nh and some more characters to make it a long string\",\n  \"k\": [1,\n 2]\n}\n"),
+    ("m1.lua", "E1(@M@)\ndo\n  return E1(@M@),\n    @M@\nend\n"),
+    ("m1.lua", "local function f(...)\n  return ...,\n    @M@\nend\nE1(@M@)\nreturn f(@M@,\n  @M@)\n"),
+];
+
+/// bundling modules with hoisted types, table type keys and data files: every file keeps its lines relative to its
+/// first line, and the Lua files follow each other by the number of lines of the previous one
+fn bundle_body_cases() -> (u64, Vec<Violation>) {
+    let mut out = Vec::new();
+    let mut n = 0;
+    let number = |text: &str, file: usize| -> String {
+        text.split('\n').enumerate().map(|(i, l)| l.replace("@M@", &format!("\"@{}@\"", file * 1000 + i + 1))).collect::<Vec<_>>().join("\n")
+    };
+    for (name, body) in MODULE_BODIES {
+        for (name2, body2) in [MODULE_BODIES[0], MODULE_BODIES[3], ("m2.lua", "E1(@M@)\n\nE1(@M@)\nreturn @M@\n")] {
+            for rules in ["[]", "['remove_spaces']", "['remove_spaces','remove_comments']", "['remove_types']"] {
+                n += 1;
+                let name2 = name2.replace("m1", "m2");
+                let m1 = number(body, 1);
+                let m2 = number(body2, 2);
+                let entry = format!("local e1 = \"@1@\" local m1 = require(\"./{}\")\nlocal m2 = require(\"./{}\")\n\nlocal e4 = \"@4@\"\nreturn \"@5@\"\n", name, name2);
+                let cfg = format!("{{rules:{},bundle:{{require_mode:'path'}}}}", rules);
+                let (p1, p2) = (format!("src/{}", name), format!("src/{}", name2));
+                let files = [("src/main.luau", entry.as_str()), (p1.as_str(), m1.as_str()), (p2.as_str(), m2.as_str())];
+                let (resources, errors) = match dl::process_memory(&files, &cfg, "src/main.luau", Some("out/main.luau")) {
+                    Ok(r) => r,
+                    Err(_) => continue,
+                };
+                if !errors.is_empty() {
+                    continue;
+                }
+                let text = match resources.get("out/main.luau") {
+                    Ok(t) => t,
+                    Err(_) => continue,
+                };
+                let ms = match markers(&text) {
+                    Ok(m) => m,
+                    Err(e) => {
+                        out.push(Violation { finding: None, summary: format!("the bundle does not lex: {}\n{}", e, text), replay: json!({"kind": "bundle bodies", "m1": m1, "m2": m2, "rules": rules}) });
+                        continue;
+                    }
+                };
+                let mut problems = Vec::new();
+                let mut offsets: [Option<i64>; 3] = [None, None, None];
+                for (claimed, actual) in &ms {
+                    let (file, line) = ((claimed / 1000) as usize, (claimed % 1000) as i64);
+                    let off = *actual as i64 - line;
+                    match offsets[file] {
+                        None => offsets[file] = Some(off),
+                        Some(o) if o != off => problems.push(format!("marker {} of {} is on line {}: the file's lines moved by different amounts ({} and {})", claimed, ["the entry", "m1", "m2"][file], actual, o, off)),
+                        _ => {}
+                    }
+                }
+                if let (Some(o2), Some(oe)) = (offsets[2], offsets[0]) {
+                    // lines of a data file are not lines of code: only Lua modules are followed at a known distance
+                    let m1_is_lua = name.ends_with(".lua") || name.ends_with(".luau");
+                    if let (Some(o1), true) = (offsets[1], m1_is_lua) {
+                        if o2 - o1 != source_lines(&m1) {
+                            problems.push(format!("m2 starts {} lines after m1, which has {} lines", o2 - o1, source_lines(&m1)));
+                        }
+                    }
+                    if oe - o2 != source_lines(&m2) {
+                        problems.push(format!("the entry starts {} lines after m2, which has {} lines", oe - o2, source_lines(&m2)));
+                    }
+                } else {
+                    problems.push(format!("markers are missing from the bundle: {:?}", ms));
+                }
+                if !problems.is_empty() {
+                    out.push(Violation {
+                        finding: None,
+                        summary: format!("{}\n--- rules {} {} = {:?} {} = {:?}\n--- output\n{}", problems.join("\n"), rules, name, m1, name2, m2, text),
+                        replay: json!({"kind": "bundle bodies", "m1": m1, "m2": m2, "rules": rules}),
+                    });
+                }
+            }
+        }
+    }
+    (n, out)
+}
+
 pub fn run(tier: Tier) -> Report {
     let mut report = Report::new("C04", "model_checking", tier);
     report.rule = "41 multi-line layouts (calls, tables, function definitions, if-chains with constant and dynamic conditions, loops, declarations spread \
@@ -461,6 +583,10 @@ pub fn run(tier: Tier) -> Report {
     report.evaluations += n;
     report.violations.extend(v);
     report.set("bundle_ending_cases", n);
+    let (n, v) = bundle_body_cases();
+    report.evaluations += n;
+    report.violations.extend(v);
+    report.set("bundle_body_cases", n);
     report.traces_validated = report.evaluations;
     report.exhaustive = closed;
     report.set("layouts", seeds.len() as u64);
